@@ -526,6 +526,19 @@ func (c *Converter) convertVocabulary(p *rdf.ParsedVocabulary, refs map[string]*
 			return
 		}
 	}
+	// A type may have been converted before a type of this vocabulary that
+	// it is declared disjoint with, in which case convertType could not make
+	// the connection. Complete those links now that every type exists.
+	for _, t := range p.Vocab.Types {
+		for _, disj := range t.DisjointWith {
+			if len(disj.Vocab) != 0 {
+				continue
+			}
+			if other, ok := v.Types[disj.Name]; ok {
+				v.Types[t.Name].AddDisjoint(other)
+			}
+		}
+	}
 	return
 }
 
